@@ -240,11 +240,14 @@ def _expand_by_interpretation(ctx, f):
         return None
     helpers = {q.split('.')[-1]: d[0] for q, d in mod.defs.items() if q.startswith(CLS + '.') and isinstance(d[0], ast.FunctionDef)}
     pool = ['AA', 'AC', 'CA', 'GT', 'AN', 'NN']
+    # the ORDER of the whitelist matters to an implementation that keeps candidates in arrival order: every order of a few three-barcode whitelists whose
+    # members are at distance 1, 1 and 2 of one observed string
+    ordered = [list(p_) for base in (('CC', 'AC', 'CA'), ('GG', 'AG', 'GA'), ('AC', 'CA', 'NN')) for p_ in itertools.permutations(base)]
     params = [a.arg for a in f.args.args]
     n = 0
     try:
-        for size in (2, 3):
-            for wl in itertools.combinations(pool, size):
+        for size in (2, 3, 0):
+            for wl in (itertools.combinations(pool, size) if size else ordered):
                 table = {b: i + 1 for i, b in enumerate(wl)}
                 for k in (0, 1, 2):
                     n += 1
@@ -506,6 +509,24 @@ def r5(ctx):
     stored_k = bool(stores_k) and all(src(s_.value) == 'hammingDistanceExpansion' for s_ in stores_k)
     post = [s for s in walk_no_nested(init) if isinstance(s, ast.If) and pred_is(s.test, lambda e: e['k'] > 0, {'hammingDistanceExpansion': 'k', 'self.hammingDistanceExpansion': 'k'}) and any('self.expand(hammingDistanceExpansion' in src(x) or ('self.expand(self.hammingDistanceExpansion' in src(x) and stored_k) for x in s.body)]
     ctx.emit('C03-R5', len(post) == 1, BARCODEPARSER, post[0] if post else init, 'eager loading expands every parsed alias when the distance is > 0', key='eager-expand')
+    # ... and the alias that is expanded is the alias of the iteration at hand: a name bound by the loop the call sits in (its target, or assigned in its body) -
+    # a variable left over from an earlier loop names only the last file
+    mod_ = ctx.ix.module(BARCODEPARSER)
+    for c_ in [x for x in walk_no_nested(init) if isinstance(x, ast.Call) and src(x.func) == 'self.expand']:
+        a_ = next((k.value for k in c_.keywords if k.arg == 'alias'), c_.args[1] if len(c_.args) > 1 else None)
+        loop_ = mod_.parent.get(c_)
+        while loop_ is not None and not isinstance(loop_, (ast.For, ast.While)) and loop_ is not init:
+            loop_ = mod_.parent.get(loop_)
+        if a_ is None or not isinstance(loop_, ast.For):
+            continue
+        bound_here = {n_.id for n_ in ast.walk(loop_.target) if isinstance(n_, ast.Name)} | \
+            {n_.id for s_ in walk_no_nested(loop_) if isinstance(s_, ast.Assign) for t_ in s_.targets for n_ in ast.walk(t_) if isinstance(n_, ast.Name)}
+        stale = sorted(n_ for n_ in names_in(a_) if n_ not in bound_here and n_ != 'self' and
+                       any(isinstance(l2, ast.For) and l2 is not loop_ and n_ in ({x.id for x in ast.walk(l2.target) if isinstance(x, ast.Name)} |
+                           {x.id for s2 in walk_no_nested(l2) if isinstance(s2, ast.Assign) for t2 in s2.targets for x in ast.walk(t2) if isinstance(x, ast.Name)}) for l2 in walk_no_nested(init)))
+        ctx.emit('C03-R5', not stale, BARCODEPARSER, c_, f'`{src(c_)[:80]}` expands the alias of its own iteration' if not stale else
+                 f'`{src(c_)[:80]}` sits in the loop over `{src(loop_.iter)[:40]}` but names `{stale[0]}`, a variable another loop left behind: only the last file\'s alias is expanded, every other '
+                 f'eagerly loaded whitelist gets no correction at all', key='eager-expand-alias', what='BarcodeParser.__init__: the expansion names a stale loop variable instead of the alias at hand')
     gi = ms.get('__getitem__')
     if gi is not None:
         ok = any(isinstance(x, ast.Call) and src(x.func) == 'self.parse_pending_barcode_file_of_alias' for x in walk_no_nested(gi))
